@@ -58,71 +58,86 @@ structure RdataOk (rd : Rdata) : Prop where
   err : rd.error ≤ ConstsC14.rcodeMax
   other : rd.other.length < 65536
 
-theorem rdataWire_shape (rd : Rdata) :
-    rdataWire rd = toWire rd.algorithm ++ (be 6 rd.timeSigned ++ (u16 rd.fudge ++ (u16 rd.mac.length ++ (rd.mac ++
-      (u16 rd.originalId ++ (u16 rd.error ++ (u16 rd.other.length ++ (rd.other ++ [])))))))) := by
+theorem rdataWire_shape (rd : Rdata) (post : Bytes) :
+    rdataWire rd ++ post = toWire rd.algorithm ++ (be 6 rd.timeSigned ++ (u16 rd.fudge ++ (u16 rd.mac.length ++ (rd.mac ++
+      (u16 rd.originalId ++ (u16 rd.error ++ (u16 rd.other.length ++ (rd.other ++ post)))))))) := by
   unfold rdataWire
   rw [timeEncoded_eq_be, ← u16_eq_be]
   simp [List.append_assoc]
 
-/-- `from_wire_parser (to_wire rd) = rd`, wherever the RDATA stands, as long as it ends the buffer -/
-theorem rdataParse_rdataWire (A : Bytes) (rd : Rdata) (hok : RdataOk rd) :
-    rdataParse (A ++ rdataWire rd) A.length (A ++ rdataWire rd).length = .ok rd := by
+/-- `from_wire_parser (to_wire rd) = rd`, wherever the RDATA stands and whatever follows it: the parser is
+restricted to the RDATA's own length -/
+theorem rdataParse_rdataWire_post (A : Bytes) (rd : Rdata) (post : Bytes) (hok : RdataOk rd) :
+    rdataParse (A ++ rdataWire rd ++ post) A.length (A.length + (rdataWire rd).length) = .ok rd := by
   obtain ⟨ls, hls, hp⟩ := abs_split rd.algorithm hok.algWf hok.algAbs
-  rw [rdataWire_shape]
-  generalize hr1 : (be 6 rd.timeSigned ++ (u16 rd.fudge ++ (u16 rd.mac.length ++ (rd.mac ++
-      (u16 rd.originalId ++ (u16 rd.error ++ (u16 rd.other.length ++ (rd.other ++ [])))))))) = r1
-  have hd := Dec_plain ls hp A r1 A.length
-  rw [← hls] at hd
-  have hrun := fromWireAux_of_Dec hd A.length []
-  have hw : A ++ (toWire rd.algorithm ++ r1) = A ++ toWire rd.algorithm ++ r1 := by simp
+  -- the algorithm name: decoded inside the RDATA only
+  have hname : nameAt (A ++ rdataWire rd ++ post) (A.length + (rdataWire rd).length) (nameFuel (A ++ rdataWire rd ++ post))
+      A.length A.length A.length [] = .ok (rd.algorithm, A.length + (toWire rd.algorithm).length) := by
+    rw [nameAt_fuel, fromWireAux_take _ _ _ _ _ _ (by simp)]
+    have htake : (A ++ rdataWire rd ++ post).take (A.length + (rdataWire rd).length) = A ++ rdataWire rd := by
+      rw [List.take_append_of_le_length (by simp)]
+      exact List.take_of_length_le (by simp)
+    rw [htake]
+    have hsh := rdataWire_shape rd []
+    simp only [List.append_nil] at hsh
+    rw [hsh]
+    generalize (be 6 rd.timeSigned ++ (u16 rd.fudge ++ (u16 rd.mac.length ++ (rd.mac ++
+      (u16 rd.originalId ++ (u16 rd.error ++ (u16 rd.other.length ++ rd.other))))))) = r1
+    have hd := Dec_plain ls hp A r1 A.length
+    rw [← hls] at hd
+    have hrun := fromWireAux_of_Dec hd A.length []
+    have hw : A ++ (toWire rd.algorithm ++ r1) = A ++ toWire rd.algorithm ++ r1 := by simp
+    have hlen : A.length + (toWire rd.algorithm ++ r1).length = (A ++ toWire rd.algorithm ++ r1).length := by simp <;> omega
+    rw [hw, hlen, hrun]
+    simp only [List.nil_append, ← hls]
+    congr 2
+    omega
+  have hLen : (rdataWire rd).length = (toWire rd.algorithm).length + 10 + rd.mac.length + 6 + rd.other.length := by
+    have := congrArg List.length (rdataWire_shape rd [])
+    simp [be_length, u16] at this
+    omega
   unfold rdataParse
-  rw [nameAt_fuel, hw, hrun]
-  simp only [List.nil_append, ← hls, validate_ok _ hok.algWf]
-  have hmax : max A.length (A.length + (toWire rd.algorithm).length) = A.length + (toWire rd.algorithm).length := by omega
-  rw [hmax]
+  rw [hname]
+  simp only [validate_ok _ hok.algWf]
   generalize hp0 : A.length + (toWire rd.algorithm).length = p
-  -- the rest, field by field
-  subst hr1
-  have hlen : (A ++ toWire rd.algorithm ++ (be 6 rd.timeSigned ++ (u16 rd.fudge ++ (u16 rd.mac.length ++ (rd.mac ++
-      (u16 rd.originalId ++ (u16 rd.error ++ (u16 rd.other.length ++ (rd.other ++ []))))))))).length
-      = p + 10 + rd.mac.length + 6 + rd.other.length := by
-    simp [be_length, u16]; omega
+  rw [List.append_assoc, rdataWire_shape rd post, ← List.append_assoc]
   have hpa : (A ++ toWire rd.algorithm).length = p := by simp; omega
+  have hend : A.length + (rdataWire rd).length = p + 10 + rd.mac.length + 6 + rd.other.length := by omega
+  rw [hend]
   generalize hP : A ++ toWire rd.algorithm = P at *
   have t1 : rd48 (P ++ (be 6 rd.timeSigned ++ (u16 rd.fudge ++ (u16 rd.mac.length ++ (rd.mac ++
-      (u16 rd.originalId ++ (u16 rd.error ++ (u16 rd.other.length ++ (rd.other ++ []))))))))) p = rd.timeSigned :=
+      (u16 rd.originalId ++ (u16 rd.error ++ (u16 rd.other.length ++ (rd.other ++ post))))))))) p = rd.timeSigned :=
     rd48_mid P _ _ p hok.time hpa.symm
   have e2 : P ++ (be 6 rd.timeSigned ++ (u16 rd.fudge ++ (u16 rd.mac.length ++ (rd.mac ++
-      (u16 rd.originalId ++ (u16 rd.error ++ (u16 rd.other.length ++ (rd.other ++ []))))))))
+      (u16 rd.originalId ++ (u16 rd.error ++ (u16 rd.other.length ++ (rd.other ++ post))))))))
       = (P ++ be 6 rd.timeSigned) ++ (u16 rd.fudge ++ (u16 rd.mac.length ++ (rd.mac ++
-      (u16 rd.originalId ++ (u16 rd.error ++ (u16 rd.other.length ++ (rd.other ++ []))))))) := by simp
+      (u16 rd.originalId ++ (u16 rd.error ++ (u16 rd.other.length ++ (rd.other ++ post))))))) := by simp
   have e3 : P ++ (be 6 rd.timeSigned ++ (u16 rd.fudge ++ (u16 rd.mac.length ++ (rd.mac ++
-      (u16 rd.originalId ++ (u16 rd.error ++ (u16 rd.other.length ++ (rd.other ++ []))))))))
+      (u16 rd.originalId ++ (u16 rd.error ++ (u16 rd.other.length ++ (rd.other ++ post))))))))
       = (P ++ be 6 rd.timeSigned ++ u16 rd.fudge) ++ (u16 rd.mac.length ++ (rd.mac ++
-      (u16 rd.originalId ++ (u16 rd.error ++ (u16 rd.other.length ++ (rd.other ++ [])))))) := by simp
+      (u16 rd.originalId ++ (u16 rd.error ++ (u16 rd.other.length ++ (rd.other ++ post)))))) := by simp
   have e4 : P ++ (be 6 rd.timeSigned ++ (u16 rd.fudge ++ (u16 rd.mac.length ++ (rd.mac ++
-      (u16 rd.originalId ++ (u16 rd.error ++ (u16 rd.other.length ++ (rd.other ++ []))))))))
+      (u16 rd.originalId ++ (u16 rd.error ++ (u16 rd.other.length ++ (rd.other ++ post))))))))
       = (P ++ be 6 rd.timeSigned ++ u16 rd.fudge ++ u16 rd.mac.length) ++ (rd.mac ++
-      (u16 rd.originalId ++ (u16 rd.error ++ (u16 rd.other.length ++ (rd.other ++ []))))) := by simp
+      (u16 rd.originalId ++ (u16 rd.error ++ (u16 rd.other.length ++ (rd.other ++ post))))) := by simp
   have e5 : P ++ (be 6 rd.timeSigned ++ (u16 rd.fudge ++ (u16 rd.mac.length ++ (rd.mac ++
-      (u16 rd.originalId ++ (u16 rd.error ++ (u16 rd.other.length ++ (rd.other ++ []))))))))
+      (u16 rd.originalId ++ (u16 rd.error ++ (u16 rd.other.length ++ (rd.other ++ post))))))))
       = (P ++ be 6 rd.timeSigned ++ u16 rd.fudge ++ u16 rd.mac.length ++ rd.mac) ++
-      (u16 rd.originalId ++ (u16 rd.error ++ (u16 rd.other.length ++ (rd.other ++ [])))) := by simp
+      (u16 rd.originalId ++ (u16 rd.error ++ (u16 rd.other.length ++ (rd.other ++ post)))) := by simp
   have e6 : P ++ (be 6 rd.timeSigned ++ (u16 rd.fudge ++ (u16 rd.mac.length ++ (rd.mac ++
-      (u16 rd.originalId ++ (u16 rd.error ++ (u16 rd.other.length ++ (rd.other ++ []))))))))
+      (u16 rd.originalId ++ (u16 rd.error ++ (u16 rd.other.length ++ (rd.other ++ post))))))))
       = (P ++ be 6 rd.timeSigned ++ u16 rd.fudge ++ u16 rd.mac.length ++ rd.mac ++ u16 rd.originalId) ++
-      (u16 rd.error ++ (u16 rd.other.length ++ (rd.other ++ []))) := by simp
+      (u16 rd.error ++ (u16 rd.other.length ++ (rd.other ++ post))) := by simp
   have e7 : P ++ (be 6 rd.timeSigned ++ (u16 rd.fudge ++ (u16 rd.mac.length ++ (rd.mac ++
-      (u16 rd.originalId ++ (u16 rd.error ++ (u16 rd.other.length ++ (rd.other ++ []))))))))
+      (u16 rd.originalId ++ (u16 rd.error ++ (u16 rd.other.length ++ (rd.other ++ post))))))))
       = (P ++ be 6 rd.timeSigned ++ u16 rd.fudge ++ u16 rd.mac.length ++ rd.mac ++ u16 rd.originalId ++ u16 rd.error) ++
-      (u16 rd.other.length ++ (rd.other ++ [])) := by simp
+      (u16 rd.other.length ++ (rd.other ++ post)) := by simp
   have e8 : P ++ (be 6 rd.timeSigned ++ (u16 rd.fudge ++ (u16 rd.mac.length ++ (rd.mac ++
-      (u16 rd.originalId ++ (u16 rd.error ++ (u16 rd.other.length ++ (rd.other ++ []))))))))
+      (u16 rd.originalId ++ (u16 rd.error ++ (u16 rd.other.length ++ (rd.other ++ post))))))))
       = (P ++ be 6 rd.timeSigned ++ u16 rd.fudge ++ u16 rd.mac.length ++ rd.mac ++ u16 rd.originalId ++ u16 rd.error
-        ++ u16 rd.other.length) ++ (rd.other ++ []) := by simp
+        ++ u16 rd.other.length) ++ (rd.other ++ post) := by simp
   generalize hW : P ++ (be 6 rd.timeSigned ++ (u16 rd.fudge ++ (u16 rd.mac.length ++ (rd.mac ++
-      (u16 rd.originalId ++ (u16 rd.error ++ (u16 rd.other.length ++ (rd.other ++ [])))))))) = W at *
+      (u16 rd.originalId ++ (u16 rd.error ++ (u16 rd.other.length ++ (rd.other ++ post)))))))) = W at *
   have t2 : rd16 W (p + 6) = rd.fudge := by
     rw [e2]; exact rd16_mid' _ _ _ _ hok.fudge (by simp [be_length]; omega)
   have t3 : rd16 W (p + 8) = rd.mac.length := by
@@ -138,12 +153,16 @@ theorem rdataParse_rdataWire (A : Bytes) (rd : Rdata) (hok : RdataOk rd) :
     rw [e7]; exact rd16_mid' _ _ _ _ hok.other (by simp [be_length, u16]; omega)
   have t8 : slice W (p + 10 + rd.mac.length + 6) (p + 10 + rd.mac.length + 6 + rd.other.length) = rd.other := by
     rw [e8]; exact slice_mid _ _ _ _ _ (by simp [be_length, u16]; omega) (by simp [be_length, u16]; omega)
-  simp only [t1, t2, t3, t4, t5, t6, t7, t8, hlen]
+  simp only [t1, t2, t3, t4, t5, t6, t7, t8]
   have c1 : ¬ p + 10 > p + 10 + rd.mac.length + 6 + rd.other.length := by omega
   have c2 : ¬ p + 10 + rd.mac.length > p + 10 + rd.mac.length + 6 + rd.other.length := by omega
   have c3 : ¬ p + 10 + rd.mac.length + 6 > p + 10 + rd.mac.length + 6 + rd.other.length := by omega
-  have c4 : ¬ p + 10 + rd.mac.length + 6 + rd.other.length > p + 10 + rd.mac.length + 6 + rd.other.length := by omega
   have c5 : ¬ rd.error > ConstsC14.rcodeMax := by have := hok.err; omega
   simp [c1, c2, c3, c5]
+
+theorem rdataParse_rdataWire (A : Bytes) (rd : Rdata) (hok : RdataOk rd) :
+    rdataParse (A ++ rdataWire rd) A.length (A ++ rdataWire rd).length = .ok rd := by
+  have := rdataParse_rdataWire_post A rd [] hok
+  simpa using this
 
 end Model.Tsig
